@@ -6,7 +6,7 @@ from __future__ import annotations
 import z3
 
 from pyvc import ops, stdlib
-from pyvc.harness import T, Task, call_catch, fint
+from pyvc.harness import T, Task, call_catch, fint, freal, fref
 from pyvc.interp import LoopSpec
 from pyvc.interp_expr import PyRaise
 from pyvc.ops import rterm, sterm, term, to_sfloat
@@ -244,6 +244,10 @@ def exit_obligations(it, w, key, is_exec, r):
                 p.oblige(f"{key}/exit/C13/abort-ends-run-with-aborted-event",
                          z3.And(g["n_term"] == 1, g["term_event"] == z3.StringVal("aborted"), g["sleeps_attempt"] == 0,
                                 g["strat_calls_attempt"] == 0), prop="C13")
+                # C14: abort events carry only the reason and the operation - also when earlier attempts of this run failed
+                p.oblige(f"{key}/exit/C14/abort-terminal-event",
+                         z3.And(g["n_term"] == 1, g["term_event"] == z3.StringVal("aborted"), z3.Not(g["term_reason_none"]),
+                                g["term_reason"] == R("ABORTED"), g["term_class_none"], g["term_exc_none"], g["term_cause_none"]), prop="C14")
                 p.cover(f"{key}/exit/raise/op-abort")
             elif p.branch(z3.Or(is_cancel, is_ree, z3.Not(is_exc))):
                 # cancellation-type, nested RetryExhaustedError, other BaseException: propagate at once, untouched
@@ -443,3 +447,104 @@ def mk(runner):
 
 
 TASKS = [mk(r) for r in RUNNERS]
+
+
+def t_call_with_timeout(it):
+    """_call_with_timeout(func, timeout_s): the real body, run against a model of concurrent.futures / threading (trusted stdlib
+    semantics), must satisfy the contract every call site assumes: func is started exactly once; if it finishes within the timeout its
+    own outcome is delivered - the returned object, or the very exception object it raised, of ANY class (C04: no substitute; C13:
+    KeyboardInterrupt/SystemExit/CancelledError are not lost) - and TimeoutError is raised only when it did not finish in time."""
+    from pyvc.harness import call_catch as cc
+    key = "redress.policy.runner.sync_core:_call_with_timeout"
+    st = {}
+
+    def run_worker(it_, thunk, swallow):
+        """the worker thread: runs thunk unless the timeout expires first"""
+        st["finished"] = it_.path.choose(2, "worker-finished-before-timeout") == 1
+        if not st["finished"]:
+            return
+        try:
+            st["value"] = it_.call_value(thunk, [], {})
+        except PyRaise as e:
+            if swallow:  # an exception escaping a Thread's target ends that thread (threading.excepthook); nobody else sees it
+                st["lost"] = e.exc
+            else:
+                st["exc"] = e.exc
+
+    def tpe(it_, args, kwargs, node):
+        return Obj(None, {"submit": EnvFn("tpe.submit"), "shutdown": EnvFn("noop")})
+
+    def submit(it_, fn, a, k, n):
+        run_worker(it_, a[0], swallow=False)  # a Future stores whatever the callable raised, BaseException included
+        return Obj(None, {"result": EnvFn("fut.result"), "cancel": EnvFn("noop"), "done": EnvFn("fut.done"), "exception": EnvFn("fut.exception")})
+
+    def fut_result(it_, fn, a, k, n):
+        if not st["finished"]:
+            e = it_.make_exc("TimeoutError")  # concurrent.futures.TimeoutError is the builtin TimeoutError since Python 3.11
+            e.tag = "futures-timeout"
+            raise PyRaise(e)
+        if "exc" in st:
+            raise PyRaise(st["exc"])
+        return st.get("value")
+
+    def thread(it_, args, kwargs, node):
+        return Obj(None, {"start": EnvFn("thr.start", attrs={"target": kwargs.get("target")}), "join": EnvFn("noop"),
+                          "is_alive": EnvFn("thr.alive")})
+
+    it.ext_models["concurrent.futures.ThreadPoolExecutor"] = tpe
+    it.ext_models["threading.Thread"] = thread
+    it.env_models["tpe.submit"] = submit
+    it.env_models["fut.result"] = fut_result
+    it.env_models["fut.done"] = lambda it_, fn, a, k, n: st["finished"]
+    it.env_models["fut.exception"] = lambda it_, fn, a, k, n: st.get("exc")
+    it.env_models["thr.start"] = lambda it_, fn, a, k, n: run_worker(it_, fn.attrs["target"], swallow=True)
+    it.env_models["thr.alive"] = lambda it_, fn, a, k, n: not st["finished"]
+    it.env_models["noop"] = lambda it_, fn, a, k, n: None
+    stdlib.trusted("concurrent.futures.ThreadPoolExecutor / Future, threading.Thread",
+                   "worker runs the callable once, to completion or not before the timeout; Future.result re-raises the stored exception "
+                   "(any BaseException) or raises TimeoutError (= builtin TimeoutError, Python >= 3.11); an exception escaping a Thread target is lost")
+
+    def op(it_, fn, a, k, n):
+        st["calls"] = st.get("calls", 0) + 1
+        if it_.path.choose(2, "op-outcome") == 1:
+            e = it_.fresh_exc("op", origin="func")
+            st["op_exc"] = e
+            raise PyRaise(e)
+        v = fref("op_value")
+        st["op_value"] = v
+        return v
+
+    it.env_models["op"] = op
+
+    def h(it):
+        p = it.path
+        st.clear()
+        timeout = freal("timeout_s")
+        p.assume(timeout.t > 0)
+        r = cc(it, FuncV(it.tree.func(key)), [EnvFn("op"), timeout])
+        p.oblige(f"{key}/ensures/func-started-at-most-once", st.get("calls", 0) <= 1, prop=None)
+        if st.get("finished"):
+            p.oblige(f"{key}/ensures/func-ran-once", st.get("calls", 0) == 1, prop=None)
+            if "op_value" in st:
+                p.oblige(f"{key}/ensures/returns-the-very-object-func-returned", r[0] == "ok" and r[1] is st["op_value"], prop=None,
+                         detail=repr(r[1]))
+                p.cover(f"{key}/value")
+            else:
+                e = st["op_exc"]
+                p.oblige(f"{key}/ensures/raises-the-very-exception-func-raised-whatever-its-class", r[0] == "exc" and r[1] is e, prop=None,
+                         detail={"delivered": repr(r[1]), "func_raised": repr(e), "lost_in_worker": "lost" in st})
+                p.cover(f"{key}/exception")
+        else:
+            ok = r[0] == "exc" and r[1].tag == "raised-by-code" and r[1].cls_t is not None and \
+                z3.is_true(z3.simplify(it.lattice.isinstance_cond(r[1].cls_t, TimeoutError)))
+            p.oblige(f"{key}/ensures/TimeoutError-when-not-finished-in-time", ok, prop=None, detail=repr(r[1]))
+            p.cover(f"{key}/timeout")
+
+    return h
+
+
+_t = Task("runner._call_with_timeout", t_call_with_timeout,
+          ["C01", "C02", "C03", "C04", "C05", "C09", "C11", "C12", "C13", "C14", "C15", "C16"],
+          ["redress.policy.runner.sync_core:_call_with_timeout"])
+_t.replay_script = "call_with_timeout.py"
+TASKS.append(_t)
